@@ -1100,9 +1100,47 @@ class LemmaStatedFormAdmissible(_Base):
         return [('store_set_admissible', forall_range(0, s.m, lambda q: z3.Implies(SKIP(q), forall_range(q, s.m, lambda p: SKIP(p), 'p')), 'q'))]
 
 
+VAL_FREE, VAL_POOL = z3.Function('value_free', I, Val), z3.Function('value_pool', I, Val)     # output of the j-th needed node (execution order) without / with the pool
+LOADED, STOCH, PARENT = z3.Function('loaded', I, B), z3.Function('stochastic', I, B), z3.Function('parent', I, I, B)
+GP_FREE, GP_POOL = z3.Function('gen_pos_free', I, I), z3.Function('gen_pos_pool', I, I)
+
+
+class LemmaSameValues(_Base):
+    """(iv) same node outputs as without a pool, over the abstract execution model: needed nodes 0 .. n-1 in execution order (parents first: C02),
+    a node is either LOADED from the pool (value = stored value = fresh value: LemmaPoolContent + PoolLoader.load) or executed; an executed node is a
+    deterministic function of its parents' outputs and, if stochastic, of the generator position (assumed); executed stochastic nodes see the
+    pool-free generator position (LemmaGenerator under store_set_admissible)  =>  every node's output equals the pool-free one"""
+    target = '@verif/lemmas/c05_lemmas.py::lemma_same_values'
+
+    def setup(self, vc):
+        s = NS(n=z3.Int('n_nodes'))
+        vc.fin_bounds.append(s.n)
+        return s, (SInt(s.n),), {}
+
+    def env(self, vc):
+        def step(k):
+            k = T(k)
+            vc.oblige('call-pre[step at k >= 0]', k >= 0)
+            vc.assume(z3.Implies(z3.And(z3.Not(LOADED(k)), forall_range(0, k, lambda p: z3.Implies(PARENT(p, k), VAL_POOL(p) == VAL_FREE(p)), 'p'),
+                                        z3.Implies(STOCH(k), GP_POOL(k) == GP_FREE(k))), VAL_POOL(k) == VAL_FREE(k)))       # determinism of node k (assumed)
+        return dict(step=step)
+
+    def requires(self, s):
+        return [s.n >= 0,
+                ('a loaded node carries the value a fresh computation produces', forall_range(0, s.n, lambda j: z3.Implies(LOADED(j), VAL_POOL(j) == VAL_FREE(j)), 'j')),
+                ('an executed stochastic node sees the pool-free generator position', forall_range(0, s.n, lambda j: z3.Implies(z3.And(z3.Not(LOADED(j)), STOCH(j)), GP_POOL(j) == GP_FREE(j)), 'j'))]
+
+    @property
+    def loops(self):
+        return {0: Loop(inv=lambda s, l: [z3.And(T(l.k) >= 0, T(l.k) <= s.n), forall_range(0, T(l.k), lambda j: VAL_POOL(j) == VAL_FREE(j), 'j')])}
+
+    def ensures(self, s, result):
+        return [('every needed node has the output of the pool-free run', forall_range(0, s.n, lambda j: VAL_POOL(j) == VAL_FREE(j), 'j'))]
+
+
 CONTRACTS = [ContextInit(), SetContext(), Callback(), AddBatch('dict'), AddBatch('array'), GetBatch(), Len(), ContainsC(), RemoveBatch(), Clear(),
              AddStore(), RemoveStore(), PoolLoad(True), PoolLoad(False),
-             LemmaNoResim(), LemmaPoolContent(), LemmaGenerator('admissible'), LemmaGenerator('stated-form'), LemmaStatedFormAdmissible()]
+             LemmaNoResim(), LemmaPoolContent(), LemmaGenerator('admissible'), LemmaGenerator('stated-form'), LemmaStatedFormAdmissible(), LemmaSameValues()]
 
 TRUSTED_BASE = ['pyvc engine: proxies, loop cutting (visited-set iteration over dicts), inlining of real helper methods / properties',
                 'python dict contract of a store (in / getitem / setitem / delitem / len / clear); elfi ArrayStore as specified by C06 (prefix of indices, append at len, IndexError beyond) - proxy StoreRef, sanity-tested',
